@@ -244,7 +244,7 @@ impl ByprodSpec {
 }
 
 impl LinkSpec {
-    pub fn to_lib(&self) -> LinkMetadata {
+    pub fn to_builder(&self) -> LinkMetadataBuilder {
         LinkMetadataBuilder::new()
             .name(self.name.clone())
             .materials(artifacts_to_lib(&self.materials))
@@ -252,8 +252,9 @@ impl LinkSpec {
             .env(self.env.clone())
             .byproducts(self.byproducts.to_lib())
             .command(Command::from(self.command.clone()))
-            .build()
-            .expect("link build")
+    }
+    pub fn to_lib(&self) -> LinkMetadata {
+        self.to_builder().build().expect("link build")
     }
     pub fn from_lib(l: &LinkMetadata) -> Self {
         LinkSpec {
